@@ -37,6 +37,7 @@ class ClassDecl:
     bases: list
     fields: dict  # name -> Sort
     lineno: int = 0
+    record: bool = False
 
 
 @dataclass
@@ -254,6 +255,10 @@ def load(path) -> Module:
                 for kw in c.keywords:
                     if kw.arg == "bases":
                         d.bases = _const(kw.value)
+                    elif kw.arg == "record":
+                        # a JSON-like dict with a fixed vocabulary of keys: key k <-> field k; a field of sort Opt[T] is an
+                        # OPTIONAL key (outer None = key absent)
+                        d.record = bool(_const(kw.value))
                     else:
                         d.fields[kw.arg] = m.sort_of(kw.value)
             elif f == "alias":
